@@ -800,3 +800,8 @@ Proof.
   - rewrite is_exp_false in Ex. cbn [fst] in Ex. rewrite (Hother r0 i Ex). split; [auto|].
     intros [Hold|Hn]; [exact Hold|]. apply tinfo_some in Hn as (e & He & Hr & _). destruct (Ex e He (eq_sym Hr)).
 Qed.
+
+Lemma tinfo_single t d e r0 :
+  tinfo t d [e] r0 = if route_eq_dec (exp_route e) r0 then Some (mk_info t false d e) else None.
+Proof. unfold tinfo. cbn [fold_info]. destruct (route_eq_dec (exp_route e) r0); reflexivity. Qed.
+
